@@ -383,6 +383,48 @@ BOUND = {
 }
 
 
+def field_valid(kind, v):
+    """is v a well-formed value of a numeric field of the Breakpad format? d: decimal, fits u32 (at most 10 digits);
+    h32 / h64: 1..8 / 1..16 hex digits.  (The expectation comes from the format, not from the implementation.)"""
+    if kind == "d":
+        return bool(re.fullmatch(r"[0-9]{1,10}", v)) and int(v) <= 0xFFFFFFFF
+    return bool(re.fullmatch(r"[0-9a-fA-F]{1,%d}" % (8 if kind == "h32" else 16), v))
+
+
+def boundary_files_tagged():
+    """(file, 'ok' | 'bad'): 'ok' = every record is well formed (the parse must succeed), 'bad' = one numeric field is
+    malformed or out of range (the parse must fail)"""
+    out = []
+    for t in TEMPLATES:
+        parts = re.split(r"(\{d\}|\{h32\}|\{h64\})", t)
+        slots = [i for i, p in enumerate(parts) if p.startswith("{")]
+        for si in slots:
+            kind = parts[si][1:-1]
+            for v in BOUND[kind]:
+                ps = [("1" if (p.startswith("{") and i != si) else (v if i == si else p)) for i, p in enumerate(parts)]
+                out.append((("MODULE Linux x86 ABC name\n" + "".join(ps) + "\nFILE 5 after\n").encode(),
+                            "ok" if field_valid(kind, v) else "bad"))
+    return out
+
+
+CR_LINES = [b"INFO CODE_ID ABC\rDEF", b"INFO URL http://x\ry", b"INFO GENERATOR x\ry", b"FILE 1 a\rb", b"INLINE_ORIGIN 1 a\rb",
+            b"PUBLIC 10 0 a\rb", b"PUBLIC m 10 0 a\rb", b"FUNC 10 4 0 a\rb", b"FUNC m 10 4 0 a\rb", b"FUNC 10 4 0 f\n10 4 1\r 1",
+            b"FUNC 10 4 0 f\nINLINE 0 1 1 1 10\r 4", b"STACK CFI INIT 10 4 .cfa:\r $esp", b"STACK CFI INIT 10 4 r\nSTACK CFI 12 .cfa:\r x",
+            b"STACK WIN 4 10 4 0 0 0 0 0 0 1 $eip\r =", b"STACK WIN 0 10 4 0 0 0 0 0 0 0 1\r1", b"MODULE Linux x86 AB\rC name"]
+
+
+def cr_inside_files():
+    """(file, offset of the CR): a carriage return that is not part of the line ending, inside every record kind"""
+    out = []
+    for l in CR_LINES:
+        if l.startswith(b"MODULE"):
+            data = l + b"\nFILE 5 after\n"
+        else:
+            data = b"MODULE Linux x86 ABC name\n" + l + b"\nFILE 5 after\n"
+        out.append((data, data.index(b"\r")))
+    return out
+
+
 def boundary_files():
     """every numeric field of every record kind at every boundary value, the other fields being 1"""
     out = []
